@@ -781,7 +781,7 @@ func init() {
 		Meta: func(c *core.Ctx) core.Meta {
 			return core.Meta{
 				Level: "exploration",
-				Rule: "differential against an independent model of each helper: every list of length 0..L over a 3-symbol alphabet plus nil (L=5 quick, 7 thorough) and PRNG lists up to length 64, plus long lists (1023..3000 elements, thorough 70000; counts sampled at the ends, the middle and around powers of two; index-sensitive predicates), for element types int, string and struct; every count/size in [-3, len+3]; predicate/transformer/key families; all pairs of lists up to length 3 for the binary helpers; Range over lo,hi in [-3,4] x hop; " +
+				Rule: "differential against an independent model of each helper: every list of length 0..L over a 3-symbol alphabet plus nil (L=5 quick, 7 thorough) and PRNG lists up to length 64, plus long lists (1023..3000 elements, thorough 70000; counts sampled at the ends, the middle and around powers of two; index-sensitive predicates), for element types int, string and struct; every count/size in [-3, len+3]; predicate/transformer/key families; all pairs of lists up to length 3 for the binary helpers; Range over lo,hi in [-3,4] x hop; callbacks with memory (call logs: once per element, in order; first-occurrence and budget predicates against a sequential model, also through Stream.Filter/Reject); maps with NaN keys through Merge / DuplicateMap / Keys / Values and the interface{} twins; " +
 					"each input sits in a backing array with sentinel-filled spare capacity that is compared with a snapshot after the call. distinct_nontrivial = enumerated (helper, input, parameter) cases with a non-empty input (distinct by construction)",
 				Assumptions: []string{"degenerate parameters follow the code's explicit guards where the doc comment is silent (list in DESIGN.md C03); DropLast(n<=0) drops nothing",
 					"nil predicates only for the helpers that document them (Every, Some, DropWhile)", "Drop/Take/TakeLast/DropLast/Tail may alias the input (only 'input unmodified' is required)"},
@@ -839,6 +839,7 @@ func init() {
 			c03Numeric(c, hw, "int", []int{-3, -2, -1, 0, 1, 2, 3, 4}, []int{-3, -1, 0, 1, 2, 3, 7})
 			c03Numeric(c, hw, "float64", []float64{-3, -1.5, -1, 0, 0.5, 1, 2.5, 4}, []float64{-3, -0.5, 0, 0.5, 1, 1.5, 7})
 			c03Numeric(c, hw, "uint8", []uint8{0, 1, 2, 3, 4, 5, 9}, []uint8{0, 1, 2, 3})
+			c03Extra(c)
 		},
 	})
 }
